@@ -556,7 +556,7 @@ def c03_post(rec, c, r, d):
 
 PROPS["C03"] = {
     "post": c03_post,
-    "theorems": ["C03_no_children", "C03_multiple_wrapped", "C03_wrap_shape", "C03_wrap_vslots_literal", "C03_function_child", "C03_function_child_keeps_vslots",
+    "theorems": ["C03_no_children", "C03_multiple_wrapped", "C03_wrap_shape", "C03_wrap_vslots_literal", "C03_function_child", "C03_function_child_keeps_vslots", "C03_vslots_any_expression",
                  "C03_object_child", "C03_ident_runtime", "C03_ident_disabled", "C03_call_once", "C03_generated_call_wrapped", "C03_helper"],
     "cases": c03_cases,
     "explanation": "oracle: for every component host the slots normal form denoted by the written children (default thunk in order / function child / object child / runtime decision for a sole identifier or call / v-slots entries beside default) equals the one evaluated from the real output's third createVNode argument, temporaries substituted (a call child must be assigned exactly once inside the _isSlot test)",
